@@ -18,6 +18,7 @@ import (
 //   rollingWindow      RollingWindow vs WindowModel (rwmodel.go), single client, boundary instants
 //   cacheSequential    Cache (+ its timing wheel on the virtual clock) vs the nondeterministic cache model
 //   cacheConcurrent    2-4 clients on one Cache, history decided by porcupine
+//   cacheMulti         2-3 Caches in one process, same keys, clients across them; one history and model per cache
 //   safeMapConcurrent  / queueConcurrent / ringConcurrent: porcupine
 //   safeMapLong        >10000 deletions across SafeMap's generation switch, direct map model
 //   queueSequential / ringSequential / setSequential: direct slice models
@@ -26,8 +27,10 @@ func init() { logx.Disable() }
 
 func body(r *simrt.Run, tier string) {
 	switch r.Tape.Intn(16) {
-	case 0, 8, 14:
+	case 0, 8:
 		rollingWindow(r, tier)
+	case 14:
+		cacheMulti(r, tier)
 	case 1, 9, 13:
 		cacheSequential(r, tier)
 	case 2, 10:
